@@ -177,16 +177,28 @@ def rule_cpform(ctx: Ctx) -> List[Ob]:
         any(isinstance(x, ast.Assign) and src(x.targets[0]) == "t_cur" and isinstance(x.value, ast.Subscript) and src(x.value.value) == "t"
             for x in trys[0].body)
     if okh and isinstance(trys[0], ast.If):
-        okh = src(trys[0].test).replace(" ", "") in ("_i<len(sorted_t_idx)", "_i<nbreak", "len(sorted_t_idx)>_i", "nbreak>_i")
+        from ..flow import Expander as _Ex2
+        okh = src(_Ex2(ctx, f, only=lambda v: isinstance(v, ast.Name) or (isinstance(v, ast.Call) and dotted(v.func) == "len"))
+                  .expand_at(trys[0].test, trys[0].test)).replace(" ", "") in ("_i<len(sorted_t_idx)", "len(sorted_t_idx)>_i")
     obs.append(ob("CPFORM", "after the last breakpoint the segment is unbounded (t_cur = inf)", f, trys[0] if trys else lp, okh,
                   "next breakpoint read from t; past the end of the list t_cur = inf" if okh else "the end-of-list case does not set t_cur to infinity",
                   construct="try: t_cur = t[ibp] except IndexError: t_cur = inf"))
     ctr_defs = [s for s in walk_no_nested(f.node) if isinstance(s, (ast.Assign, ast.AugAssign, ast.AnnAssign)) and "_i" in _top_targets(s)]
+    from ..flow import Expander as _Ex
+    fex = _Ex(ctx, f, only=lambda v: isinstance(v, ast.Name) or (isinstance(v, ast.Call) and dotted(v.func) == "len"))
+    guard_src = src(fex.expand_at(lp.test, lp.test)).replace(" ", "")
     okc = len(ctr_defs) == 2 and isinstance(ctr_defs[0], ast.Assign) and isinstance(ctr_defs[0].value, ast.Constant) and ctr_defs[0].value.value == 0 \
         and isinstance(ctr_defs[1], ast.AugAssign) and isinstance(ctr_defs[1].op, ast.Add) and isinstance(ctr_defs[1].value, ast.Constant) \
-        and ctr_defs[1].value.value == 1 and ctr_defs[1] in lp.body and src(lp.test).replace(" ", "") in ("_i<len(sorted_t_idx)", "len(sorted_t_idx)>_i", "_i<nbreak", "nbreak>_i")
+        and ctr_defs[1].value.value == 1 and ctr_defs[1] in lp.body and guard_src in ("_i<len(sorted_t_idx)", "len(sorted_t_idx)>_i")
     obs.append(ob("CPFORM", "breakpoints are consumed one per iteration from the first", f, ctr_defs[0] if ctr_defs else lp, okc,
-                  f"counter definitions {[short(x) for x in ctr_defs]}, guard `{short(lp.test)}`", construct="_i = 0; while _i < len(list): ... _i += 1"))
+                  f"counter definitions {[short(x) for x in ctr_defs]}, guard `{guard_src}`", construct="_i = 0; while _i < len(list): ... _i += 1"))
+    # the no-breakpoint shortcut is taken exactly when the list of positive breakpoints is empty
+    early = [x for x in pre if isinstance(x, ast.If) and any(isinstance(y, ast.Return) for y in x.body)
+             and not any(isinstance(y, ast.Name) and y.id in ("iprint", "logger") for y in ast.walk(x.test))]
+    oke = len(early) == 1 and src(fex.expand_at(early[0].test, early[0].test)).replace(" ", "") in \
+        ("len(sorted_t_idx)==0", "0==len(sorted_t_idx)", "notlen(sorted_t_idx)", "sorted_t_idx.size==0")
+    obs.append(ob("CPFORM", "x is returned as Cauchy point only when no variable has a positive breakpoint", f, early[0] if early else lp, oke,
+                  f"early return under `{src(fex.expand_at(early[0].test, early[0].test)) if early else '?'}`", construct="if nbreak == 0: return x_cp, c"))
     inf_set = [s for g in ctx.repo.funcs_in("cauchy") for s in walk_no_nested(g.node)
                if isinstance(s, ast.Assign) and isinstance(s.targets[0], ast.Subscript)
                and src(s.value) in ("np.inf", "float('inf')") and src(s.targets[0].slice).replace(" ", "") in ("grad==0", "~mask", "~nz")]
@@ -654,4 +666,135 @@ def rule_subform(ctx: Ctx) -> List[Ob]:
     okw = bool(wdef) and src(wdef[0].value).replace(" ", "") in ("Z.T.dot(mats.W).T", "(Z.T@mats.W).T", "mats.W.T@Z", "mats.W.T.dot(Z)")
     obs.append(ob("SUBFORM", "the right-hand side of the reduced system is W^T Z rHat", f, vdef[0] if vdef else f.node, okv and okw,
                   f"v = {short(vdef[0].value) if vdef else '?'}; WTZ = {short(wdef[0].value) if wdef else '?'}", construct="v = (W^T Z) rHat"))
+    return obs
+
+
+@rule("KFACT", min_instances=2)
+def rule_kfact(ctx: Ctx) -> List[Ob]:
+    """the LEL^T factorisation of K used by the subspace step has one code path: L11 = chol(-K11),
+    L12 = L11^{-1} (-K12), L22 = chol(K22 + L12^T L12), LK = [[L11, 0], [L12^T, L22]] (Byrd-Lu-Nocedal 5.x);
+    every other return must be the trivial 1x1 case.  Compared as canonical block terms, not text."""
+    f = ctx.repo.func("subspacemin.factorize_k")
+    from ..flow import Expander
+    ex = Expander(ctx, f)
+    obs: List[Ob] = []
+    rets = [r for r in walk_no_nested(f.node) if isinstance(r, ast.Return) and r.value is not None]
+    need(len(rets) >= 1, "KFACT: no return")
+
+    # single-assignment locals of the straight-line body (a name assigned twice, or K itself, is not resolved)
+    defs: Dict[str, list] = {}
+    for st in walk_no_nested(f.node):
+        if isinstance(st, (ast.Assign, ast.AnnAssign, ast.AugAssign)):
+            for tg in (st.targets if isinstance(st, ast.Assign) else [st.target]):
+                for nm in ast.walk(tg):
+                    base = tg
+                    while isinstance(base, (ast.Subscript, ast.Attribute)):
+                        base = base.value
+                    if isinstance(nm, ast.Name) and (isinstance(nm.ctx, ast.Store) or nm is tg or nm is base):
+                        defs.setdefault(nm.id, []).append(st.value if isinstance(st, (ast.Assign, ast.AnnAssign)) and isinstance(tg, ast.Name) else None)
+    need("K" not in defs, "KFACT: K is reassigned inside factorize_k")
+
+    def is_half(e) -> bool:
+        if isinstance(e, ast.Name) and len(defs.get(e.id, [])) == 1 and defs[e.id][0] is not None:
+            e = defs[e.id][0]
+        t = src(e).replace(" ", "")
+        return t in ("int(K.shape[0]/2)", "K.shape[0]//2", "int(K.shape[0]//2)", "K.shape[1]//2", "int(K.shape[1]/2)",
+                     "len(K)//2", "int(len(K)/2)")
+
+    def rng(sl):
+        # 0 = first half, 1 = second half
+        if isinstance(sl, ast.Slice) and sl.step is None:
+            if sl.lower is None and sl.upper is not None and is_half(sl.upper):
+                return 0
+            if sl.upper is None and sl.lower is not None and is_half(sl.lower):
+                return 1
+        return None
+
+    def T(x):
+        return x[1] if x[0] == "T" else ("T", x)
+
+    def neg(x):
+        return x[1] if x[0] == "neg" else ("neg", x)
+
+    def kf(e):
+        if isinstance(e, ast.Name):
+            if e.id == "K":
+                return ("K",)
+            ds = defs.get(e.id, [])
+            return kf(ds[0]) if len(ds) == 1 and ds[0] is not None else ("?", e.id)
+        if isinstance(e, ast.Subscript) and isinstance(e.slice, ast.Tuple) and len(e.slice.elts) == 2 and src(e.value) == "K":
+            a, b = rng(e.slice.elts[0]), rng(e.slice.elts[1])
+            if a is not None and b is not None:
+                # K is symmetric: K21 = K12^T
+                return ("blk", a, b) if (a, b) != (1, 0) else ("T", ("blk", 0, 1))
+        if isinstance(e, ast.UnaryOp) and isinstance(e.op, ast.USub):
+            return neg(kf(e.operand))
+        if isinstance(e, ast.Attribute) and e.attr == "T":
+            return T(kf(e.value))
+        if isinstance(e, ast.BinOp) and isinstance(e.op, ast.MatMult):
+            return ("mm", kf(e.left), kf(e.right))
+        if isinstance(e, ast.BinOp) and isinstance(e.op, ast.Add):
+            return ("add",) + tuple(sorted([kf(e.left), kf(e.right)], key=repr))
+        if isinstance(e, ast.Call):
+            fn = (dotted(e.func) or "").split(".")[-1]
+            if fn == "cholesky" and e.args:
+                lo = kw(e, "lower") or (e.args[1] if len(e.args) > 1 else None)
+                return ("chol" if lo is not None and src(lo) == "True" else "cholU", kf(e.args[0]))
+            if fn == "solve_triangular" and len(e.args) >= 2:
+                lo, tr = kw(e, "lower"), kw(e, "trans")
+                plain = lo is not None and src(lo) == "True" and (tr is None or src(tr) in ("'N'", "0", '"N"'))
+                return ("tsolve" if plain else "tsolve?" + src(e), kf(e.args[0]), kf(e.args[1]))
+            if fn in ("zeros", "zeros_like"):
+                return ("0",)
+            if fn in ("hstack", "vstack") and len(e.args) == 1 and isinstance(e.args[0], (ast.List, ast.Tuple)):
+                return (fn,) + tuple(kf(x) for x in e.args[0].elts)
+            if fn == "block" and len(e.args) == 1 and isinstance(e.args[0], ast.List) and all(isinstance(r_, ast.List) for r_ in e.args[0].elts):
+                rows = [[kf(x) for x in r_.elts] for r_ in e.args[0].elts]
+                if len(rows) == 2 and all(len(r_) == 2 for r_ in rows):
+                    return ("block", rows[0][0], rows[0][1], rows[1][0], rows[1][1])
+            if fn in ("asarray", "array", "atleast_2d") and e.args:
+                return kf(e.args[0])
+        return ("?", src(e))
+
+    def blockform(t):
+        if t[0] == "hstack" and len(t) == 3 and all(c[0] == "vstack" and len(c) == 3 for c in t[1:]):
+            return ("block", t[1][1], t[2][1], t[1][2], t[2][2])
+        if t[0] == "vstack" and len(t) == 3 and all(c[0] == "hstack" and len(c) == 3 for c in t[1:]):
+            return ("block", t[1][1], t[1][2], t[2][1], t[2][2])
+        return t
+
+    L11 = ("chol", ("neg", ("blk", 0, 0)))
+    L12 = ("tsolve", L11, ("neg", ("blk", 0, 1)))
+    L22 = ("chol", ("add",) + tuple(sorted([("blk", 1, 1), ("mm", ("T", L12), L12)], key=repr)))
+    REF = ("block", L11, ("0",), ("T", L12), L22)
+    for r in rets:
+        e = r.value
+        t = blockform(kf(e))
+        if t[0] == "block" or len(rets) == 1 or r is rets[-1]:
+            ok = t == REF
+            why = ""
+            if not ok and t[0] == "block":
+                for nm, a, b in zip(("L11", "zero block", "L12^T", "L22"), t[1:], REF[1:]):
+                    if a != b:
+                        why = f": block {nm} is {a}, reference {b}"
+                        break
+            obs.append(ob("KFACT", "LK is assembled from chol(-K11), L11^-1(-K12) and chol(K22 + L12'L12)", f, r, ok,
+                          f"returns {short(e, 100)}{why}", construct="factorize_k: assembled factor"))
+        else:
+            # the degenerate exit: only for a 1x1 K, where sqrt(K) is the factor
+            guard = None
+            for p_ in ast.walk(f.node):
+                if isinstance(p_, ast.If) and any(r is x for b in p_.body for x in ast.walk(b)):
+                    guard = p_
+            val = src(e).replace(" ", "")
+            trivial = val in ("np.sqrt(K)", "K**0.5", "np.sqrt(np.abs(K))")
+            g = src(guard.test).replace(" ", "") if guard is not None else ""
+            small = g in ("K.size<4", "K.size==1", "K.size<2", "K.size<=1", "K.shape[0]<2", "K.shape[0]==1", "K.shape[0]<=1", "len(K)<2", "len(K)==1")
+            if trivial and guard is not None and not small:
+                raise AnalysisError(f"KFACT: guard `{short(guard.test)}` of the trivial exit is not a recognised 'K is 1x1' test")
+            okd = trivial and small
+            obs.append(ob("KFACT", "any other return is the trivial 1x1 case", f, r, okd,
+                          f"returns {short(e, 80)} under `{short(guard.test) if guard is not None else 'no guard'}`" +
+                          ("" if okd else ": a second code path computes the factor by another formula"),
+                          construct=f"factorize_k: return {short(r.value, 40)}"))
     return obs
